@@ -3,13 +3,20 @@
 EXTENDS Section, JudgeBase
 VARIABLE i
 
+\* small meshes: the plain L1 operator; records with `keep` (faces whose segments must be present, 1-based count) or more than
+\* 60 faces: the equivalent formulation that computes the crossed-edge set once
+SecOK(r, T, vp, fs, o) ==
+    IF "keep" \in DOMAIN r THEN SectionOKFast(T, vp, fs, r.n, r.dn, r.dd, o.curves, r.keep)
+    ELSE IF Len(fs) > 60 THEN SectionOKFast(T, vp, fs, r.n, r.dn, r.dd, o.curves, Len(fs))
+    ELSE SectionOK(T, vp, fs, r.n, r.dn, r.dd, o.curves)
 JSection(r) ==
     LET o == r.out T == r.T vp == r.vpos fs == r.faces IN
     /\ Clause(i, "C13.section.ok", o.ok)
     /\ o.ok =>
        /\ Clause(i, "C13.section.finite", o.finite)
-       /\ Clause(i, "C13.section.on_plane_and_surface_each_segment_once", SectionOK(T, vp, fs, r.n, r.dn, r.dd, o.curves))
-       /\ SectionOK(T, vp, fs, r.n, r.dn, r.dd, o.curves) =>
+       /\ Clause(i, "C13.section.on_plane_and_surface_each_segment_once",
+                 SecOK(r, T, vp, fs, o))
+       /\ SecOK(r, T, vp, fs, o) =>
             /\ (Watertight(fs) => Clause(i, "C13.section.closed_for_watertight", AllClosed(T, vp, fs, r.n, r.dn, r.dd, o.curves)))
             /\ (r.convex => Clause(i, "C13.section.one_loop_for_convex",
                      Len(o.curves) = (IF CrossedEdges(vp, fs, r.n, r.dn, r.dd) = {} THEN 0 ELSE 1)))
